@@ -171,6 +171,10 @@ func (h *vAS) exec(op []string) {
 		a.lock.Lock()
 		a.useInterleaving = op[5] == "1"
 		a.useForwardTSN = true
+		// optional token before the trailing pair number: 1 = I-FORWARD-TSN negotiated (only ever together with interleaving)
+		if len(op) >= 12 && op[10] == "1" {
+			a.useIForwardTSN, a.useForwardTSN = true, false
+		}
 		a.peerVerificationTag = 1
 		a.sourcePort, a.destinationPort = 5000, 5000
 		a.setState(established)
@@ -358,7 +362,14 @@ func vASGenerate(t *testing.T, h *vAS, r *vrand, nseq, nops int) {
 			tsn += 1 << 31
 		}
 		peerRwnd := uint32(r.pick(0, 1, 500, 1500, 10000, 65536, 1<<20, int(^uint32(0)>>1)))
-		h.do("as new %d %d %d %d %d %d %d %d %d", mtu, rcv, minCwnd, il, tsn, peerRwnd, r.pick(0, 0, 4000), r.pick(0, 0, 2000), pair)
+		// with interleaving the association negotiates I-FORWARD-TSN (useIForwardTSN); the old combination (I-DATA with
+		// FORWARD-TSN) is kept in the mix because corpus files use it
+		ifwd := 0
+		if il == 1 && r.chance(70) {
+			ifwd = 1
+			h.l.stat("as.new.ifwd")
+		}
+		h.do("as new %d %d %d %d %d %d %d %d %d %d", mtu, rcv, minCwnd, il, tsn, peerRwnd, r.pick(0, 0, 4000), r.pick(0, 0, 2000), ifwd, pair)
 		ns := 1 + r.n(3)
 		openStream := func(i int) {
 			relType, relVal := 0, 0
@@ -447,6 +458,9 @@ func vASGenerate(t *testing.T, h *vAS, r *vrand, nseq, nops int) {
 			case x < 60:
 				before := h.a.myNextTSN
 				nfast := h.a.stats.getNumFastRetrans()
+				if established && h.a.willSendForwardTSN && sna32GT(h.a.advancedPeerTSNAckPoint, h.a.cumulativeTSNAckPoint) {
+					h.l.stat("as.gather.fwdtsn")
+				}
 				h.do("as gather")
 				for tsn := before; tsn != h.a.myNextTSN; tsn++ {
 					pv.sent = append(pv.sent, tsn)
